@@ -173,6 +173,18 @@ func (c *completion) completeValue(value reflect.Value, prefix string, match str
 	return ret
 }
 
+// keepArgument records arg the way the parser keeps a plain argument: it fills
+// the next positional argument or becomes a remaining argument.
+func (c *completion) keepArgument(s *parseState, arg string) {
+	if len(s.positional) > 0 {
+		if !s.positional[0].isRemaining() {
+			s.positional = s.positional[1:]
+		}
+	} else {
+		s.retargs = append(s.retargs, arg)
+	}
+}
+
 func (c *completion) complete(args []string) []Completion {
 	if len(args) == 0 {
 		args = []string{""}
@@ -227,12 +239,28 @@ func (c *completion) complete(args []string) []Completion {
 					c.skipPositional(s, len(s.args)-1)
 
 					break
+				} else if o == nil && (c.parser.Options&IgnoreUnknown) != None {
+					// like the parser: an ignored unknown option is kept
+					// as a plain argument
+					c.keepArgument(s, arg)
 				} else if o != nil && o.canArgument() && !o.OptionalArgument && canarg {
 					if len(s.args) > 1 {
 						s.pop()
 					} else {
 						opt = o
 					}
+				}
+			} else if (c.parser.Options & IgnoreUnknown) != None {
+				var o *Option
+
+				if islong {
+					o = s.lookup.longNames[optname]
+				} else {
+					o = s.lookup.shortNames[optname]
+				}
+
+				if o == nil {
+					c.keepArgument(s, arg)
 				}
 			}
 		} else {
